@@ -27,7 +27,7 @@ NA = {
 CHECKS = {
     "C05": dict(
         engine="DaskSim+ThreadSim",
-        technique="deterministic simulation: seeded dask scheduler (order, K workers, transport, recompute, fusion) over the real save_cog_with_dask graph with file and fake-S3 sinks; files decoded by GDAL and tifffile",
+        technique="deterministic simulation: seeded dask scheduler (order, K workers as baton threads pre-empted at source lines of the sink, tile-compression and multi-part code, rendezvous gating, transport, recompute, fusion) over the real save_cog_with_dask graph with file and fake-S3 sinks; files decoded by GDAL and tifffile",
         text="Seeded exploration of task execution orders, worker interleavings, serialisation boundaries, recomputation and sink placements for randomly drawn images/configurations; every produced file is decoded by two independent readers and its tile layout checked. A clean batch is evidence over the sampled schedules and configurations, not a proof.",
         note="GDAL, tifffile, imagecodecs and the kernel file system run as opaque real code; S3 and distributed are in-process fakes; dask's scheduler is replaced by DaskSim; codecs restricted to (dtype, compression, predictor) triples that pass a start-up encode/decode probe",
         ref="5 (C05), 4.2"),
@@ -39,7 +39,7 @@ CHECKS = {
         ref="5 (C06)"),
     "C13": dict(
         engine="DaskSim",
-        technique="deterministic simulation: seeded dask scheduler (order, K workers, transport, recompute, fusion) over the real chunked-reprojection graph, compared with the in-memory path",
+        technique="deterministic simulation: seeded dask scheduler (order, K workers, transport, recompute, fusion) over the real chunked-reprojection graph - single requests and pairs of requests sharing one graph - compared with the in-memory path",
         text="Seeded exploration of chunkings x placements x dtype/nodata x execution orders (with recomputation of pure tasks and serialisation of results); chunked result compared with the in-memory reprojection (exact for same-CRS nearest), fill uniformity and schedule independence checked in all cases. Evidence over sampled runs, not proof.",
         note="GDAL warp is opaque real code; exact ties on inexact grids are masked out (reported); reference footprints computed with pyproj/shapely/numpy directly",
         ref="5 (C13), 6 rule 3"),
@@ -89,7 +89,7 @@ m = {
     },
     "engines": [
         {"name": "ProtocolSim", "path": "odcsim/c06.py", "serves_properties": ["C06"], "kind_free_text": "seeded event scheduler over the real MPU protocol ops"},
-        {"name": "DaskSim", "path": "odcsim/dasksim.py", "serves_properties": ["C05", "C06", "C13"], "kind_free_text": "seeded dask scheduler: order, K workers, transport, recompute, stall"},
+        {"name": "DaskSim", "path": "odcsim/dasksim.py", "serves_properties": ["C05", "C06", "C13"], "kind_free_text": "seeded dask scheduler: order, K workers, transport, recompute, stall, rendezvous; compared with dask's own schedulers by selftest-daskconf"},
         {"name": "ThreadSim", "path": "odcsim/kernel.py", "serves_properties": ["C05", "C18", "C19"], "kind_free_text": "baton-passing real threads, sys.settrace pre-emption, cooperative locks, virtual clock"},
         {"name": "HistorySim", "path": "odcsim/c19.py", "serves_properties": ["C19"], "kind_free_text": "seeded cache-history generator in fork-isolated interpreters"},
     ],
